@@ -89,6 +89,46 @@ def find(tree, dotted):
     return node
 
 
+def plain_order(kind, src, name):
+    """parameter names of the target in declaration order, read with `ast` only"""
+    try:
+        node = find(ast.parse(src), name)
+    except SyntaxError:
+        return None
+    if node is None:
+        return None
+    if kind == "class":
+        return [n.target.id for n in node.body if isinstance(n, ast.AnnAssign) and isinstance(n.target, ast.Name)] + [
+            t.id for n in node.body if isinstance(n, ast.Assign) for t in n.targets if isinstance(t, ast.Name)]
+    if kind == "function":
+        a = node.args
+        return [x.arg for x in a.posonlyargs + a.args + a.kwonlyargs if x.arg not in ("self", "cls")]
+    return [n.value.args[0].value[2:] for n in ast.walk(node) if isinstance(n, ast.Expr) and isinstance(n.value, ast.Call)
+            and getattr(n.value.func, "attr", None) == "add_argument" and n.value.args
+            and isinstance(n.value.args[0], ast.Constant) and str(n.value.args[0].value).startswith("--")]
+
+
+def undocument_some(r, src):
+    """drop the `:param x:` lines of two or more parameters from a function's ReST docstring (a partially documented
+    truth: what the docstring leaves out must come from the signature, in the signature's order)"""
+    lines = src.split("\n")
+    idx = [i for i, l in enumerate(lines) if l.strip().startswith(":param ")]
+    if len(idx) < 3:
+        return src
+    drop = set(r.sample(idx, r.randint(2, len(idx) - 1)))
+    out, skip_blank = [], False
+    for i, l in enumerate(lines):
+        if i in drop:
+            skip_blank = True
+            continue
+        if skip_blank and not l.strip():
+            skip_blank = False
+            continue
+        skip_blank = False
+        out.append(l)
+    return "\n".join(out)
+
+
 def parse_target(kind, src, name):
     tree = ast.parse(src)
     node = find(tree, name)
@@ -120,11 +160,13 @@ def outside_dump(src, name):
     return out
 
 
-def run_sync(d, names, truth):
+def run_sync(d, names, truth, hashseed="0"):
     argv = [sys.executable, "-m", "cdd", "sync", "--class", "cls.py", "--class-name", names["class"], "--function", "fn.py",
             "--function-name", names["function"], "--argparse-function", "argp.py", "--argparse-function-name",
             names["argparse_function"], "--truth", truth]
-    env = dict(os.environ, PYTHONPATH=REPO, PYTHONDONTWRITEBYTECODE="1")
+    # every run of the command gets its own string-hash seed, as separate invocations by a user do (the harness itself,
+    # which reads the truth for comparison, runs under PYTHONHASHSEED=0)
+    env = dict(os.environ, PYTHONPATH=REPO, PYTHONDONTWRITEBYTECODE="1", PYTHONHASHSEED=hashseed)
     pr = subprocess.run(argv, cwd=d, env=env, stdout=subprocess.PIPE, stderr=subprocess.PIPE, timeout=300)
     return pr.returncode, pr.stdout.decode(), pr.stderr.decode()[-600:]
 
@@ -142,6 +184,8 @@ def run_case(ctx, P, stream, idx):
         for k in KINDS:
             ir = irs[truth] if states[k] == "equal" else irs[k]
             src, names[k] = render(k, ir, method)
+            if k == "function" and k == truth and ctx.rng(stream, idx, "partial").random() < 0.4:
+                src = undocument_some(ctx.rng(stream, idx, "partial2"), src)
             if states[k] == "empty":
                 src = ""
             elif states[k] == "absent":
@@ -159,10 +203,17 @@ def run_case(ctx, P, stream, idx):
                klass="truth=%s/%s" % (truth, ",".join("%s:%s" % (k[:4], states[k]) for k in KINDS if k != truth)),
                sample={"truth": truth, "states": states, "truth_source": srcs[truth][:400]})
         gold = parse_target(truth, srcs[truth], names[truth])
+        # the truth's own parameter order, read without cdd: signature (function), attribute order (class),
+        # add_argument order (argparse)
+        truth_order = plain_order(truth, srcs[truth], names[truth])
+        if truth == "function" and gold is not None:
+            # (the function parser lists the documented parameters first, in docstring order, then the others in
+            # signature order: that reading - taken here in this process - is the truth's interface)
+            truth_order = list(gold["params"])
         prev = None
         for rnd in range(1, ctx.rng(stream, idx, "rounds").randint(2, 3) + 1):
             snap0 = fsnap.snapshot(d)
-            rc, out, err = run_sync(d, names, truth)
+            rc, out, err = run_sync(d, names, truth, hashseed=str(1 + (idx * 31 + rnd * 7) % 9973))
             P.monitor("sync.run")
             snap1 = fsnap.snapshot(d)
             now = {}
@@ -231,6 +282,14 @@ def run_case(ctx, P, stream, idx):
                                     dict(w, target=k, after=now[k], diff=dd))
                     # independent of the emitters (the expectation above is itself produced by them): a plain scalar
                     # default of the truth must be found, same value and same Python type, in every target
+                    if truth_order is not None:
+                        P.monitor("target.order-vs-truth.compared")
+                        got_order = [n_ for n_ in got["params"] if n_ in truth_order]
+                        if got_order != [n_ for n_ in truth_order if n_ in got["params"]] and not (
+                                k in ("function", "argparse_function") and st in ("differs", "equal") and unchanged_file):
+                            P.deviation("sync.target-order-differs-from-truth|%s" % key_feats,
+                                        "after sync --truth %s the %s target lists %r, the truth %r" % (
+                                            truth, k, list(got["params"]), truth_order), dict(w, target=k, after=now[k]))
                     P.monitor("target.defaults-vs-truth.compared")
                     if list(got["params"]) == list(gold["params"]):
                         for pn, gp in gold["params"].items():
